@@ -101,6 +101,8 @@ def run(chk, replay=None):
         from checks import g03
         g03.run_growth(chk, tier, chk.seed)
         chk.assumptions.append("growth (drift only): ADAttrs.tla / LDAPHelpers.tla -- AD attribute tables, NTSTATUS layout, pure LDAP/Kerberos/DNS helpers (DESIGN 13.7 G03)")
+        # ---- the same entry points called by 8 goroutines at once (race-detector build): results as when called alone
+        vlib.parallel_callers(chk, "flags")
     finally:
         if jopt is None:
             os.environ.pop("_JAVA_OPTIONS", None)
